@@ -59,10 +59,11 @@ PROPS["C11"] = dict(
 )
 PROPS["C12"] = dict(
     level="proof", allowed_axioms=FLOCQ_AXIOMS, rule=EVAL_RULE,
-    streams=[dict(name="eval", family="eval", quick=5000, thorough=300000, nontrivial=r"LOG .|ERR")],
+    streams=[dict(name="eval", family="eval", quick=5000, thorough=300000, nontrivial=r"LOG .|ERR"),
+             dict(name="tmpl", family="tmpl", quick=1500, thorough=60000, nontrivial=r"^(OK|ERR)", shard=250)],
     trusted_base=TB_EXP, modelled=MOD_EXP, assumptions=[],
     level_text="Theorems on the evaluator model: an error in any evaluated operand is the result of the whole expression (first error wins, cause preserved), nothing is evaluated after it (the call log stops), && || ?: do not evaluate the unselected operand; tied to the code by comparing error class (errors.Is against the injected sentinels / ErrNoSuchValue) and the recorded call log on instrumented expressions.",
-    level_note="Render-level clauses (writer failures, prefix property) are covered by the renderer model streams.",
+    level_note="Render-level clauses: theorem writer_failure_prefix (Proofs/WriterPrefix.v) on the renderer model, tied to the code by the tmpl stream, where the writer fails at EVERY write index of the render in three ways (persistent, one-shot, accept-and-fail).",
 )
 PROPS["C13"] = dict(
     level="proof", rule=EVAL_RULE,
@@ -94,6 +95,7 @@ def render_prop(level_text, level_note, extra_streams=(), quick=2500, thorough=1
                 trusted_base=TB_RENDER, modelled=MOD_RENDER, assumptions=["valid UTF-8 templates", "acyclic fragment inclusion (cyclic inclusion: see C08)"],
                 level_text=level_text, level_note=level_note)
 
+REF_STREAM = dict(name="ref", family="ref", quick=4000, thorough=200000, nontrivial=r"^(OK|ERR|REF)", shard=2000)
 PROPS["C01"] = dict(level="proof", allowed_axioms=FLOCQ_AXIOMS,
     rule="documents without directives from the token grammar of harness/gen_doc.go (nesting, unbalanced/unclosed/stray close tags, void and self-closing elements, raw-text elements with '<' inside, entities, multi-line attribute values, any Unicode plane; 7 prefix / raw-text / void configurations; 10% malformed); non-trivial = loads and contains at least one tag; distinct = distinct case lines",
     streams=[dict(name="plain", family="plain", quick=3000, thorough=200000, nontrivial=r"^OK .*60,"),
@@ -108,11 +110,13 @@ PROPS["C03"] = render_prop(
     "Theorems over the renderer model for ANY behaviour of nested renders and ANY initial condition table: a chain renders exactly the first element whose condition is \"true\", nothing of an unselected element is evaluated after the selected one, an else without a preceding chain element is an error; tied to the code by diffing output, error class and the log of recording condition functions on generated chains (1-4 elements, all placements, other directives mixed in, histories on one object).",
     "The chain theorem is stated for elements whose only directive is the condition; mixed-directive chains are covered by the correspondence stream.")
 PROPS["C04"] = render_prop(
-    "Theorems: the per-item loop re-executes the element once per item in order with index and item bound innermost, joins the outputs with the blank text that follows the element (between items only), renders nothing for an empty collection, stops at the first failing item, rejects non-collections; tied to the code by diffing generated ranges over slices/arrays/strings/maps/struct fields with every header form.",
-    "Go iterates maps in random order: maps in range position have at most one entry in the generated data; range over a non-ASCII string iterates bytes (modelled).")
+    "Theorems: the per-item loop re-executes the element once per item in order with index and item bound innermost, joins the outputs with the blank text that follows the element (between items only), renders nothing for an empty collection, stops at the first failing item, rejects non-collections; tied to the code by diffing generated ranges over slices/arrays/strings/maps/struct fields with every header form, plus a reference stream ('ref') whose expected output is computed natively from the generated description: slices, []int, arrays, strings (bytes), string- and int-keyed maps with 0-3 entries (any entry order accepted), nested collections, struct items, non-collections; variables used in dynamic attributes, content and descendants; every kind of node after the element.",
+    "Go iterates maps in random order: in the model correspondence maps in range position have at most one entry; maps with several entries are checked by the native reference oracle up to the order of entries. Range over a non-ASCII string iterates bytes (modelled).",
+    extra_streams=[REF_STREAM])
 PROPS["C05"] = render_prop(
-    "Theorems: Tag.SortedAttr is a permutation, sorted by the documented key (with < conditionals < range < remove < rest) and stable, with the weights taken from html/tag.go on every run; the owner of if/else/range stops after its directive (model); tied to the code by diffing every directive subset in random written order, plus the direct oracle that re-renders with permuted control attributes.",
-    "'each effect exactly once' is checked through the call log of recording functions in the correspondence stream.")
+    "Theorems: Tag.SortedAttr is a permutation, sorted by the documented key (with < conditionals < range < remove < rest) and stable, with the weights taken from html/tag.go on every run; the owner of if/else/range stops after its directive (model); tied to the code by diffing every directive subset in random written order, plus the direct oracle that re-renders with permuted control attributes. Theorems sorted_order_irrelevant / render_order_irrelevant / execute_order_irrelevant: rewriting the attributes of any number of elements in another order (attributes of equal sort key keeping their relative order) changes neither output, result, name table nor call log of the model render, for every fuel, scope, writer and nesting position. The remove modes are additionally checked against natively computed expectations ('ref' stream).",
+    "'each effect exactly once' is checked through the call log of recording functions in the correspondence stream.",
+    extra_streams=[REF_STREAM])
 PROPS["C06"] = render_prop(
     "Theorems: Combine falls through only on Absent (not on present-nil, not on failure), a chain of scopes resolves to the first non-absent entry, the render scope is data then global (built-ins last), with/range bindings shadow and resolve everything else outside, siblings are rendered in the list's scope (bindings never flow to a sibling or back to the parent); tied to the code by diffing nested with/range shadowing of data/global/built-in names.",
     "reflect-level lookup (getValue) is modelled, validated by the eval stream.",
@@ -180,6 +184,9 @@ PROPS["C08"] = dict(level="proof", allowed_axioms=FLOCQ_AXIOMS,
 # input, that input is a concrete input on which the behaviour the property describes has changed, and
 # it is reported as the replay (the brief: "the disagreeing case if the disagreement is on an observable
 # the property fixes").  For the others a bare disagreement is reported with no-failing-input-found.
+PROPS["C12"]["trusted_base"] = TB_RENDER
+PROPS["C12"]["modelled"] = MOD_RENDER
+PROPS["C12"]["rule"] = EVAL_RULE + " || tmpl stream: " + SOUP_RULE + "; in addition the first valuation of every case is re-rendered with the writer failing at every write index (three failure modes)"
 for _pid in ["C01", "C03", "C04", "C05", "C06", "C07", "C09", "C10", "C11", "C12", "C13", "C14", "C16", "C17", "C18", "C19", "C20", "C02"]:
     PROPS[_pid]["functional"] = True
 
